@@ -163,6 +163,11 @@ def oracle(ctx, ops, impl, max_index, min_left_min, max_age=900):
             c = op["cred"]
             rel = [s for s in c.get("statuses", []) if s["type"] == "StatusList2021Entry" and s["purpose"] == "revocation"] if not c.get("nostatus") else []
             v = line.split()[1]
+            # every download of a foreign URL that serves a list which verifies stores a record (whatever the credential looks like)
+            _fs_before = dict(first_stored)
+            for url in re.findall(r"raw:([^,\]]+)", line.split("dl=")[1]):
+                if (node, url) not in first_stored and hosted_now.get(url, {}).get("kind") in ("ok", "noexp", "suspension"):
+                    first_stored[(node, url)] = clock
             if op.get("down"):
                 stats["verify-with-endpoint-down"] += 1
             # successful downloads of another node's list in this verification: what the stored row must hold afterwards
@@ -202,13 +207,11 @@ def oracle(ctx, ops, impl, max_index, min_left_min, max_age=900):
                 if lst["node"] < 0:
                     url = lst.get("raw", "")
                     asked = ("raw:" + url) in line.split("dl=")[1]
-                    fs = first_stored.get((node, url))
+                    fs = _fs_before.get((node, url))
                     if not asked and (fs is None or clock - fs > max_age):
                         report("C11:stale-external-list-not-refreshed-after-max-age",
                                f"node {node}, {url}: " + ("no record yet" if fs is None else f"first stored {clock - fs} s ago (> {max_age} s)") +
                                f", host serves kind={hosted_now.get(url, {}).get('kind')}; the verification did not ask the host; answer {v}", i)
-                    if asked and fs is None and hosted_now.get(url, {}).get("kind") in ("ok", "noexp", "suspension"):
-                        first_stored[(node, url)] = clock
                     if asked and fs is not None:
                         stats["external-list-refreshes"] += 1
                     k3 = (node, lst.get("raw", ""), int(s["idx"]))
